@@ -80,6 +80,7 @@ type CfgSpec struct {
 	Blocklist     []string `json:"blocklist,omitempty"`
 	Whitelist     []string `json:"whitelist,omitempty"`
 	EmptyZones    []string `json:"empty_zones,omitempty"`
+	Views         []config.ViewConfig `json:"views,omitempty"`
 	NSID          string   `json:"nsid,omitempty"`
 	CookieSecret  string   `json:"cookie_secret,omitempty"`
 }
@@ -203,6 +204,7 @@ func NewRes(spec *Spec, seed uint64, tr *kit.Trace) *Res {
 		Blocklist:    spec.Cfg.Blocklist,
 		Whitelist:    spec.Cfg.Whitelist,
 		EmptyZones:   spec.Cfg.EmptyZones,
+		Views:        spec.Cfg.Views,
 		NSID:         spec.Cfg.NSID,
 		CookieSecret: spec.Cfg.CookieSecret,
 		MaxConcurrentQueries: spec.Cfg.MaxConcurrent,
